@@ -1,20 +1,111 @@
-(* C13 — Pipeline steps run only after everything they depend on succeeded.
-   Property theorems only (proofs are in Sched/Proofs.v). *)
+(* C13 — Concurrent step commands never exceed the configured process pool.
+   Property theorems only (proofs in Sched/Proofs.v).  [count_running s] is the number of steps whose
+   command process is alive in state [s]; [fix_shared_pool] / [fix_atomic_acquire] are the two halves
+   of the repair of P11 (both are in the current tree, commit b7ee5068: the check passes
+   `fix=11...` to the extracted model and validates every real trace against it). *)
 From Coq Require Import List Bool NArith Lia.
 From XV Require Import Base.Amap Gen.StepMachine Sched.Model Sched.Proofs.
 Import ListNotations.
 Local Open Scope N_scope.
 
-Theorem cyclic_rejected cfg sch :
-  acyclicb cfg = false -> exists r, run cfg sch = Rejected r.
-Proof. exact (cyclic_rejected_lemma cfg sch). Qed.
+(* 1. (core) for every pipeline, every behaviour of the commands, every schedule and every
+      reachable state: at most process_pool_size commands are running *)
+Theorem pool_respected cfg sch s :
+  fix_shared_pool cfg = true -> fix_atomic_acquire cfg = true ->
+  run cfg sch = Accepted s -> N.of_nat (count_running s) <= c_pool cfg.
+Proof. exact (pool_respected_lemma cfg sch s). Qed.
 
+(* 2. with a pool of 1 two commands are never alive together: process lifetimes are totally
+      ordered; that this order extends the dependency graph is [started_after_dependencies] *)
+Theorem pool1_sequential cfg sch s i j ti tj :
+  fix_shared_pool cfg = true -> fix_atomic_acquire cfg = true -> c_pool cfg = 1 ->
+  run cfg sch = Accepted s -> tget (thr s) i = Some ti -> tget (thr s) j = Some tj ->
+  is_running (proc ti) = true -> is_running (proc tj) = true -> i = j.
+Proof. exact (pool1_exclusive_lemma cfg sch s i j ti tj). Qed.
+
+Theorem pool1_order_extends_graph cfg sch s i j sc ti :
+  run cfg sch = Accepted s ->
+  find_step (c_steps cfg) i = Some sc -> In j (deps_of cfg sc) ->
+  tget (thr s) i = Some ti -> started (proc ti) = true ->
+  exists tj, tget (thr s) j = Some tj /\ is_running (proc tj) = false /\
+             (is_done (loc tj) = true \/ (s_when sc = Always /\ is_terminal (loc tj) = true)).
+Proof. exact (started_after_dependencies_lemma cfg sch s i j sc ti). Qed.
+
+(* the regenerated table *)
 Theorem handler_within_table cfg s sc t :
   match handler cfg s sc t with
-  | HNext l _ => exists e, snd l = Some e /\ allowed (fst (loc t)) e = Some (fst l)
+  | HNext l _ _ => exists e, snd l = Some e /\ allowed (fst (loc t)) e = Some (fst l)
   | _ => True
   end.
 Proof. exact (handler_within_table_lemma cfg s sc t). Qed.
 
-Print Assumptions cyclic_rejected.
+(* ---- the full statement (no assumption on the switches) and what each half of the repair fixed -- *)
+Definition C13_full : Prop :=
+  forall cfg sch s, run cfg sch = Accepted s -> N.of_nat (count_running s) <= c_pool cfg.
+
+Definition mkstep i w deps outs pr :=
+  {| s_id := i; s_when := w; s_deps := deps; s_outs := outs; s_proc := pr; s_sup := VChanged; s_thor := VChanged |}.
+Definition mkcfg steps ex pool a b c d e :=
+  {| c_steps := steps; c_exists := ex; c_pool := pool; c_cap := 65536;
+     fix_shared_pool := a; fix_atomic_acquire := b; fixed_P12 := c; fixed_P13 := d; fixed_P14 := e |}.
+Definition round_robin (cfg : config) (n : nat) : list tid := flat_map (fun _ => all_tids cfg) (seq 0 n).
+Definition steps_only (cfg : config) (n : nat) : list tid := flat_map (fun _ => map Step (step_ids cfg)) (seq 0 n).
+Definition three := [mkstep 0 ByDeps [] [] (Exits 0 0 0); mkstep 1 ByDeps [] [] (Exits 0 0 0); mkstep 2 ByDeps [] [] (Exits 0 0 0)].
+
+(* the tree before b7ee5068: one counter per step thread *)
+Definition cfg_per_thread := mkcfg three [] 1 false false true true true.
+(* one shared counter, but test (WaitingToRun) and decrement (Running) in different iterations *)
+Definition cfg_separate := mkcfg three [] 1 true false true true true.
+Definition cfg_fixed (pool : N) := mkcfg three [] pool true true true true true.
+
+Definition max_running (cfg : config) (sch : list tid) : option nat :=
+  match init cfg with
+  | Accepted s0 => let '(_, mx, _) := run_obs cfg s0 sch 0%nat true in Some mx
+  | Rejected _ => None
+  end.
+
+Theorem pool_refuted_per_thread_counter :
+  exists sch s, run cfg_per_thread sch = Accepted s /\ c_pool cfg_per_thread < N.of_nat (count_running s).
+Proof. exists (steps_only cfg_per_thread 20). eexists. split; [vm_compute; reflexivity|]. vm_compute. reflexivity. Qed.
+
+Theorem pool_refuted_separate_test_and_decrement :
+  exists sch s, run cfg_separate sch = Accepted s /\ c_pool cfg_separate < N.of_nat (count_running s).
+Proof. exists (steps_only cfg_separate 20). eexists. split; [vm_compute; reflexivity|]. vm_compute. reflexivity. Qed.
+
+Theorem C13_full_refuted : ~ C13_full.
+Proof.
+  intros H. destruct pool_refuted_per_thread_counter as [sch [s [Hr Hlt]]].
+  specialize (H _ _ _ Hr). apply N.lt_nge in Hlt. contradiction.
+Qed.
+
+(* non-vacuity: under the same schedules the repaired model reaches, and never exceeds, the pool *)
+Example fixed_pool1 : max_running (cfg_fixed 1) (steps_only (cfg_fixed 1) 20) = Some 1%nat.
+Proof. vm_compute. reflexivity. Qed.
+Example fixed_pool2 : max_running (cfg_fixed 2) (steps_only (cfg_fixed 2) 20) = Some 2%nat.
+Proof. vm_compute. reflexivity. Qed.
+Example old_pool1 : max_running cfg_per_thread (steps_only cfg_per_thread 20) = Some 3%nat.
+Proof. vm_compute. reflexivity. Qed.
+Example fixed_pool1_completes :
+  match run (cfg_fixed 1) (round_robin (cfg_fixed 1) 60) with
+  | Accepted s => all_doneb s = true /\ map (fun kv => fst (loc (snd kv))) (thr s) = [DoneByRunning; DoneByRunning; DoneByRunning]
+  | Rejected _ => False
+  end.
+Proof. vm_compute. split; reflexivity. Qed.
+
+Check pool_respected :
+  forall cfg sch s, fix_shared_pool cfg = true -> fix_atomic_acquire cfg = true ->
+  run cfg sch = Accepted s -> N.of_nat (count_running s) <= c_pool cfg.
+Check pool1_sequential :
+  forall cfg sch s i j ti tj,
+  fix_shared_pool cfg = true -> fix_atomic_acquire cfg = true -> c_pool cfg = 1 ->
+  run cfg sch = Accepted s -> tget (thr s) i = Some ti -> tget (thr s) j = Some tj ->
+  is_running (proc ti) = true -> is_running (proc tj) = true -> i = j.
+Check C13_full_refuted : ~ C13_full.
+
+Print Assumptions pool_respected.
+Print Assumptions pool1_sequential.
+Print Assumptions pool1_order_extends_graph.
 Print Assumptions handler_within_table.
+Print Assumptions pool_refuted_per_thread_counter.
+Print Assumptions pool_refuted_separate_test_and_decrement.
+Print Assumptions C13_full_refuted.
